@@ -15,13 +15,13 @@
    FRAGMENT covered (`ffrag`, defined in Rc/For_proofs.v over `sfrag` of Rc/Cow_proofs.v; notes/C01.md spells it
    out): arbitrary nesting, arbitrary index paths, all payload kinds (list, dict with/without default, string,
    vector, bytes, struct instance); statements  x[p] = e,  every x[p] = e (p with slices),  x[p] f= e  (append ++ +
-   |. -.),  x[p] f= [pop|remove|consume y[q]]  (a right-hand side that mutates, also the target itself: the old value
+   |. -. || |..),  x[p] f= [pop|remove|consume y[q]]  (a right-hand side that mutates, also the target itself: the old value
    is read first),  [y[q] =] pop|remove|consume x[p]  (remove also by slice),  swap x[p], y[q],
    for (it <- x[p]) (simple statements)  with the cloning/draining iterator;  expressions  literal, x[p] (also
    slices), getter closure, [e..], e{k = e'}, call of a function that mutates its parameter (incl. `every`).
    Write paths of the non-`every` forms contain no slice (that is todo!() in set_index, finding F11).
-   NOT covered by the theorems (correspondence only): the builtins || and |.. as op-assign operators.
-   The full statement is the same with `forallb ffrag ops = true` dropped. *)
+   So `ffrag` excludes only what the interpreter itself leaves as todo!(): every operator and statement form of the
+   statement language is covered.  Builtins outside `bop` are outside the model. *)
 From Coq Require Import ZArith List Bool.
 From NV Require Import Rc.ValueSem Rc.Heap Rc.Cow Rc.Heap_proofs Rc.Cow_proofs Rc.For_proofs Rc.Corollaries_proofs.
 Import ListNotations.
